@@ -35,6 +35,80 @@ CLAIMS["C16"] = (
     TECH + "; bounded exhaustive small-scope stand-in as replay oracle",
 )
 
+CLAIMS["C20"] = (
+    "proof",
+    "Proved for all integers on the real code: Scrollable._adjust_trim_top keeps 0 <= position <= max(0, total - height) for every action and stored position "
+    "(negative = from the bottom) and moves by the documented amount; Scrollable.render returns exactly (maxcol, maxrow), shows rows [p, p+height) of the child's "
+    "full rendering (window ghost through the canvas contracts) and reports p; keys/mouse events the child handles are not used for scrolling; ScrollBar.render draws "
+    "the bar iff content is taller, parts are non-negative and sum to the view height, thumb at top iff position 0, child gets width minus bar; the drawn parts equal a spec "
+    "function proved monotone in the position (lemma). A bounded stand-in renders real widgets.",
+    "Assumes: widget protocol for the wrapped widget, canvas size/cursor/window contracts (owned by C02's bounded canvas-protocol check), float rounding as exact rationals "
+    "(sizes < 2^20). ListBox relative-scroll branch of ScrollBar.render: bounded only.",
+    "§6 C20",
+    TECH + "; lemma over the spec function for monotonicity; bounded stand-in",
+)
+CLAIMS["C09"] = (
+    "proof",
+    "For Filler and Padding (children abstract, i.e. for every child honouring the widget protocol): render, get_cursor_coords, mouse_event, move_cursor_to_coords and keypress are "
+    "each proved against ONE shared geometry (the container's own padding/filler values as an uninterpreted pure function): reported cursor = child's cursor shifted = cursor of the "
+    "focused rendering; a mouse event on a child cell reaches that child once with child-relative coordinates and a padding cell reaches nobody; move_cursor succeeds iff the child "
+    "accepts the translated cell. Other containers: bounded stand-in only (so far).",
+    "Assumes: widget protocol (incl. child's render cursor == its get_cursor_coords), canvas contracts, fit precondition stated in the contract file. Pile, Columns, Frame, Overlay, "
+    "BoxAdapter, ListBox, GridFlow are not under deductive contract yet.",
+    "§6 C09",
+    TECH + "; bounded stand-in on real widget trees",
+)
+CLAIMS["C14"] = (
+    "proof",
+    "emit: iterates a snapshot, calls _call_callback exactly once per handler present at the start, in connection order, with that handler's stored arguments, and returns the OR of the "
+    "results -- under re-entrancy (every user callback may havoc the live handler lists; invariant proved stable). _call_callback: callback invoked iff all weak arguments are alive, with "
+    "weak ++ user ++ emitted (++ user_arg) in that order. connect: appends one entry with a fresh key, NameError iff the name is unregistered and then nothing is written, weak args stored "
+    "as weak references; the weakref callback closure does not capture the sender (syntactic obligation). disconnect_by_key: removes exactly the entries with that key, order preserved, in place.",
+    "Assumes: weakref.ref / Key() models (fresh, referent), opaque callbacks; Signals.disconnect (by arguments) and GC timing: bounded only; 'never keeps a sender alive' beyond the closure-capture check is not decided.",
+    "§6 C14",
+    TECH + " with quantified loop invariants and a rely (havoc) model of re-entrant callbacks; bounded stand-in",
+)
+CLAIMS["C11"] = (
+    "proof",
+    "On an abstract text (str: opaque characters with width in {0,1,2} and a prefix-sum function; bytes: ints 0..255): decode_one decodes every well-formed UTF-8 sequence per the "
+    "Unicode table to its scalar value and length, never yields an ordinal >= 0x110000, always progresses within the text; calc_text_pos / calc_string_text_pos return a position in range on a "
+    "character boundary whose column is the width of the prefix, never beyond the requested column and maximal; calc_width is the column difference (hence additive); move_next/prev_char "
+    "stop at the adjacent boundary and are inverse (lemma); calc_trim_text: slice width + pads == requested range, pads set iff a wide character straddles that edge.",
+    "Assumes: wcwidth range {-1..2} (swept exhaustively by the bounded check), bytes.decode model, monotone prefix sums. Wide (double-byte) mode of calc_text_pos/move_*: bounded only; "
+    "within_double_byte: classification and termination only. apply_target_encoding: bounded only.",
+    "§6 C11",
+    TECH + "; bounded stand-in incl. exhaustive sweep of all code points",
+)
+CLAIMS["C05"] = (
+    "other",
+    "Bounded stand-in only so far: every table sequence, X10/SGR mouse and cursor reports, UTF-8 / double-byte characters, garbage <= 3 bytes, every 1- and 2-cut split with the timeout fired or not, "
+    "three encodings, through a real Screen on a pipe; no deductive obligations yet for the decoder (string-heavy code).",
+    "Bounded: see evidence 'bound'. Not proved.",
+    "§6 C05",
+    "bounded contract check (exhaustive small scope) of the real decoder against an independent reference decoder",
+)
+
+CLAIMS["C13"] = (
+    "proof",
+    "SelectEventLoop, on the real code with heapq/time/selectors/itertools.count modelled: alarm() adds exactly one handle with a fresh tie-break; remove_alarm() removes exactly that handle and "
+    "reports True iff it was pending (second removal False: lemma); watch/idle registration maps change only at the given key with fresh idle handles; one iteration of _loop waits at most once, "
+    "never blocks while an idle pass is owed, runs an alarm only when nothing was ready and only the heap minimum after waiting until it was due, sets/clears the did-something flag as stated, "
+    "and EVERY callback it invokes is registered at the moment of the call (obligation at each call site, under the rely that callbacks may re-enter all six operations); run() returns only after "
+    "ExitMainLoop and lets any other exception out unchanged.",
+    "Assumes: heapq.heappop returns a minimum and heap operations preserve the multiset (assumed contracts), select() returns an arbitrary set of registered descriptors, time is monotone. "
+    "Other loops (asyncio, tornado, twisted, trio, zmq, glib): their schedulers have no contracts here -- not decided deductively (bounded stand-in for asyncio where it runs offline).",
+    "§6 C13",
+    TECH + " over abstract-data-type models of heap/map/selector; rely-guarantee for re-entrant callbacks",
+)
+CLAIMS["C18"] = (
+    "other",
+    "Proved: _value_lookup_table maps every value below size to the index of a nearest entry (quantified loop invariant), _gray_num_256/_gray_num_88 ramps. The description<->number round trip, idempotence, "
+    "hash/equality and nearest-colour clauses range over the statement's own finite domain and are enumerated exhaustively by the bounded check (no string theory attempted).",
+    "Bounded (exhaustive over h0..h255, #000..#fff, g0..g100, g#00..g#ff, settings subsets, 5 depths; sampled 2^24 space). String parsing is outside the deductive subset.",
+    "§6 C18",
+    "bounded exhaustive enumeration of the finite colour domain; deductive kernel for the lookup tables",
+)
+
 PENDING = "contracts for this property are not built yet in this commit (see DESIGN.md §6 for the plan); no check is claimed"
 
 
